@@ -5,7 +5,7 @@ import Lemmas.QuadTreeTree
     special case.  The proofs re-use the per-operation lemmas of `Lemmas/QuadTreeTree.lean` with a bounds function that
     is read off the current contents before every step.  Core Lean only. -/
 namespace QT
-variable {R P : Type} [L : RectOps R P] [H : RectLaws R P]
+variable {R P : Type} [L : RectOps R P]
 
 /-- the specification on items: `Insert` of a non-empty node adds it, `Remove` takes out one entry with that id -/
 def specApplyI (s : List (Item R)) : Op R → List (Item R)
@@ -179,7 +179,6 @@ theorem find_okI (fuel : Nat) (k : Int) (ops : List (Op R)) (hops : HistOK ([] :
   obtain ⟨⟨bd, hb⟩, hp⟩ := run_okI fuel k ops hops
   exact (tree_find_perm bd _ hb pr f hpr).trans (hp.filter f)
 
-omit H in
 /-- the one-bounds-function contract `OpOK` is a special case of the history-dependent one -/
 theorem histOK_of_opOK (bounds : Nat → R) (ops : List (Op R)) (hops : ∀ op ∈ ops, OpOK bounds op)
     (s : List (Item R)) (hs : ∀ x ∈ s, x.rect = bounds x.id) : HistOK s ops := by
